@@ -160,8 +160,10 @@ libast_dprintf(const char *format, ...)
     int n;
 
     ASSERT_RVAL(!SPIF_PTR_ISNULL(format), (int) -1);
-    REQUIRE_RVAL(!silent, 0);
-    REQUIRE_RVAL(libast_program_name != NULL, 0);
+    /* Not REQUIRE_RVAL():  at a debug level >= 1 a failed REQUIRE logs through this very function. */
+    if (silent || !libast_program_name) {
+        return 0;
+    }
     va_start(args, format);
     n = vfprintf(LIBAST_DEBUG_FD, format, args);
     va_end(args);
@@ -189,8 +191,10 @@ libast_print_error(const char *fmt, ...)
     va_list arg_ptr;
 
     ASSERT(!SPIF_PTR_ISNULL(fmt));
-    REQUIRE(!silent);
-    REQUIRE(libast_program_name != NULL);
+    /* Not REQUIRE():  its log message would be printed although output is silenced. */
+    if (silent || !libast_program_name) {
+        return;
+    }
     va_start(arg_ptr, fmt);
     fprintf(stderr, "%s:  Error:  ", libast_program_name);
     vfprintf(stderr, fmt, arg_ptr);
@@ -217,8 +221,10 @@ libast_print_warning(const char *fmt, ...)
     va_list arg_ptr;
 
     ASSERT(!SPIF_PTR_ISNULL(fmt));
-    REQUIRE(!silent);
-    REQUIRE(libast_program_name != NULL);
+    /* Not REQUIRE():  its log message would be printed although output is silenced. */
+    if (silent || !libast_program_name) {
+        return;
+    }
     va_start(arg_ptr, fmt);
     fprintf(stderr, "%s:  Warning:  ", libast_program_name);
     vfprintf(stderr, fmt, arg_ptr);
